@@ -107,6 +107,10 @@ struct mock_script {
     long steps_done;
     int threw;
     int calls;        // number of integrate_adaptive invocations
+    // what a SECOND and later invocation within the same Solve needs (a retry does not
+    // have to meet the same difficulties as the first attempt)
+    long nsteps2;
+    long throw_at2;
 };
 mock_script &mock_current_script();
 double mock_step_end(const mock_script &s, long k, double t0, double t1);
@@ -116,6 +120,10 @@ std::size_t integrate_adaptive(Stepper, System, State &x, Time t0, Time t1,
                                Time /*dt*/, Obs observer) {
     mock_script &s = mock_current_script();
     s.calls += 1;
+    if (s.calls == 2) {
+        s.nsteps = s.nsteps2;
+        s.throw_at = s.throw_at2;
+    }
     Time t = t0;
     std::size_t count = 0;
     for (long k = 0; k < s.nsteps; k++) {
